@@ -222,21 +222,15 @@ func (a *AvahiProvider) avahiCallback(event avahi.Event) {
 
 	logging.Log().Debug("mdns: avahi - disconnected")
 
-	// the server was shutdown, set it to nil so we don't try to call free functions
-	// on shutting down a currently running resolve
 	cb := a.resolveCB
-	var serviceData *mdnsServiceData
-	if a.mdnsServiceData != nil {
-		serviceData = a.mdnsServiceData
-	}
 	a.mux.Unlock()
 
 	// try to reconnect until successull
-	go a.attemptReconnect(cb, serviceData)
+	go a.attemptReconnect(cb)
 }
 
 // attempt to reconnect to the avahi daemon endlessly
-func (a *AvahiProvider) attemptReconnect(cb api.MdnsResolveCB, serviceData *mdnsServiceData) {
+func (a *AvahiProvider) attemptReconnect(cb api.MdnsResolveCB) {
 	for {
 		a.mux.Lock()
 		isManualShutdown := a.manualShutdown
@@ -252,6 +246,12 @@ func (a *AvahiProvider) attemptReconnect(cb api.MdnsResolveCB, serviceData *mdns
 		}
 
 		logging.Log().Debug("mdns: avahi - reconnected")
+
+		// announce what is requested now: the announcement may have been changed or withdrawn
+		// while the connection was lost
+		a.mux.Lock()
+		serviceData := a.mdnsServiceData
+		a.mux.Unlock()
 
 		if serviceData != nil {
 			if err := a.Announce(serviceData.Name, serviceData.Port, serviceData.Txt); err != nil {
